@@ -158,6 +158,11 @@ func E1Tables() *an.Tables {
 			{ID: "ChanPubSub.Send delivers under sendMu", Func: "(*ChanPubSub).Send", Event: "call:(*ChanCaster).Send", Lock: "ChanPubSub.sendMu", Write: true, Why: "sends are serialised"},
 			{ID: "ChanPubSub positive Add under sendingMu", Func: "(*ChanPubSub).Add", Event: "call:(*ChanPubSub).addSubscribers", Lock: "ChanPubSub.sendingMu", Param: "delta", SignMask: 4, Why: "subscribing is excluded while a Send counts and delivers"},
 			{ID: "ChanCaster positive Add under read lock", Func: "(*ChanCaster).Add", Event: "call:(*sync/atomic.Uint64).Add", Lock: "ChanCaster.mutex", Param: "delta", SignMask: 4, Why: "a registration cannot overlap a Send"},
+			// Buffer.Diff is one atomic snapshot of the consumer's position and the buffer (C02, C03)
+			{ID: "Diff reads the buffer length inside the consumer's hold", Func: "(*Buffer).Diff", Event: "read:Buffer.buffer", Lock: "consumer.mutex", Inlined: true, Why: "a Get of that consumer between the two reads makes Diff disagree with puts - position"},
+			{ID: "Diff reads the base offset inside the consumer's hold", Func: "(*Buffer).Diff", Event: "read:Buffer.offset", Lock: "consumer.mutex", Inlined: true, Why: "a Get of that consumer between the two reads makes Diff disagree with puts - position"},
+			{ID: "Diff reads the committed offset inside the consumer's hold", Func: "(*Buffer).Diff", Event: "read:Buffer.consumers[]", Lock: "consumer.mutex", Inlined: true, Why: "a Commit of that consumer between the two reads would be counted twice or not at all"},
+			{ID: "Diff reads the position inside the buffer's hold", Func: "(*Buffer).Diff", Event: "read:consumer.offset", Lock: "Buffer.mutex", Inlined: true, Why: "a Put between the two reads makes Diff disagree with puts - position"},
 			{ID: "ChanCaster.Send sends under write lock", Func: "(*ChanCaster).Send", Event: "call:(*sync/atomic.Uint64).CompareAndSwap", Lock: "ChanCaster.mutex", Write: true, Why: "arming and reset happen under the write lock"},
 		},
 	}
